@@ -16,6 +16,10 @@ QI = "qkeras.qtools.quantized_operators.quantizer_impl"
 KINDS = {
     "fixed_s": ("QuantizedBits", {}, 0),
     "fixed_u": ("QuantizedRelu", {"mode": 0}, 0),
+    # the same two classes with the other sign: quantized_bits(...,
+    # keep_negative=False) and a leaky quantized_relu
+    "fixed_ub": ("QuantizedBits", {"is_signed": 0}, 0),
+    "fixed_sr": ("QuantizedRelu", {"mode": 0, "is_signed": 1}, 0),
     "po2_s": ("PowerOfTwo", {}, 1),
     "po2_u": ("ReluPowerOfTwo", {}, 1),
     "ternary": ("Ternary", None, 2),
@@ -23,7 +27,7 @@ KINDS = {
     "binary01": ("Binary01", None, 4),
     "float": ("FloatingPoint", None, 5),
 }
-MODE_KINDS = {0: ["fixed_s", "fixed_u"], 1: ["po2_s", "po2_u"],
+MODE_KINDS = {0: ["fixed_s", "fixed_u", "fixed_ub", "fixed_sr"], 1: ["po2_s", "po2_u"],
               2: ["ternary"], 3: ["binary"], 4: ["binary01"], 5: ["float"]}
 
 
@@ -60,7 +64,8 @@ def sibling_operands(repo):
   classes, each with the KINDS kind it must behave like (same mode / value
   set): [(class name, kind)]."""
   qi = repo.module(QI)
-  base_of = {v[0]: k for k, v in KINDS.items() if k != "binary01"}
+  base_of = {v[0]: k for k, v in KINDS.items()
+             if k not in ("binary01", "fixed_ub", "fixed_sr")}
   out = []
   for cname, ci in sorted(qi.classes.items()):
     if cname in base_of or cname == "IQuantizer":
